@@ -6,6 +6,7 @@ fn main() {
     let args: Vec<String> = std::env::args().collect();
     match args.get(1).map(|s| s.as_str()) {
         Some("trim") => trim(&args[2]),
+        Some("c06bound") => c06bound(args.get(2).map(|x| x.parse().unwrap()).unwrap_or(6)),
         Some("parse") => parse(&args[2], args.get(3).map(|s| s.as_str())),
         Some("k8src") => print!("{}", k8_source(args[2].parse().unwrap())),
         Some("pp") => pp(&args[2], args.get(3).map(|s| s == "strip").unwrap_or(false)),
@@ -70,4 +71,76 @@ fn k8_source(n: usize) -> String {
     for i in 0..n { s.push_str(&format!("wire w{};\n", i)); }
     s.push_str("input a;\n`end_keywords\nwire logic;\nendmodule\n");
     s
+}
+
+/// Reference scan of a directive-free text (no backtick): may the preprocessor reject it?
+/// Only for an unterminated string, an unterminated block comment or a lone backslash (C06).
+/// Also tells whether a string / escaped identifier is directly followed by white space or a comment
+/// (known findings K3/K4: that trivia is emitted twice, so byte equality is not demanded there).
+fn c06_reference(b: &[u8]) -> (bool, bool) {
+    let n = b.len();
+    let mut i = 0;
+    let mut k34 = false;
+    while i < n {
+        if b[i] == b'/' && i + 1 < n && b[i + 1] == b'/' {
+            i += 2;
+            while i < n && b[i] != b'\n' { i += 1; }
+            if i < n { i += 1; }
+        } else if b[i] == b'/' && i + 1 < n && b[i + 1] == b'*' {
+            let mut j = i + 2;
+            let mut closed = false;
+            while j + 1 < n { if b[j] == b'*' && b[j + 1] == b'/' { closed = true; break; } j += 1; }
+            if !closed { return (true, k34); }
+            i = j + 2;
+        } else if b[i] == b'"' {
+            let mut j = i + 1;
+            let mut closed = false;
+            while j < n {
+                if b[j] == b'\\' { if j + 1 >= n { break; } j += 2; }
+                else if b[j] == b'"' { closed = true; break; }
+                else { j += 1; }
+            }
+            if !closed { return (true, k34); }
+            i = j + 1;
+            if i < n && (b[i] == b' ' || b[i] == b'\n' || b[i] == b'\r' || b[i] == b'\t' || b[i] == b'/') { k34 = true; }
+        } else if b[i] == b'\\' {
+            let mut j = i + 1;
+            while j < n && !(b[j] == b' ' || b[j] == b'\t' || b[j] == b'\r' || b[j] == b'\n') { j += 1; }
+            if j == i + 1 { return (true, k34); }
+            i = j;
+            if i < n { k34 = true; }
+        } else {
+            i += 1;
+        }
+    }
+    (false, k34)
+}
+
+/// BOUNDED stand-in (never counted as proved): every text over a small alphabet up to length n through the real
+/// preprocess_str; a text the reference scan says must be accepted has to come back Ok (and unchanged, K3/K4 aside).
+fn c06bound(n: usize) {
+    let sigma: [u8; 8] = [b'"', b'\\', b'/', b'*', b'\n', b'\r', b' ', b'a'];
+    let defines: HashMap<String, Option<Define>> = HashMap::new();
+    let mut total: u64 = 0;
+    let mut must: u64 = 0;
+    let mut bad: Vec<String> = vec![];
+    let mut buf: Vec<u8> = vec![];
+    fn rec(buf: &mut Vec<u8>, n: usize, sigma: &[u8; 8], defines: &HashMap<String, Option<Define>>, total: &mut u64, must: &mut u64, bad: &mut Vec<String>) {
+        *total += 1;
+        let (may_reject, k34) = c06_reference(buf);
+        if !may_reject {
+            *must += 1;
+            let s = std::str::from_utf8(buf).unwrap();
+            match preprocess_str(s, PathBuf::from("t.sv"), defines, &[""], false, false, 0, 0) {
+                Ok((t, _)) => { if !k34 && t.text() != s && bad.len() < 5 { bad.push(format!("CHANGED {:?} -> {:?}", s, t.text())); } }
+                Err(e) => { if bad.len() < 5 { bad.push(format!("REJECTED {:?}: {:?}", s, e)); } }
+            }
+        }
+        if buf.len() < n {
+            for c in sigma.iter() { buf.push(*c); rec(buf, n, sigma, defines, total, must, bad); buf.pop(); }
+        }
+    }
+    rec(&mut buf, n, &sigma, &defines, &mut total, &mut must, &mut bad);
+    println!("C06BOUND n={} texts={} must_accept={} bad={}", n, total, must, bad.len());
+    for b in bad { println!("  {}", b); }
 }
